@@ -1,16 +1,17 @@
 #!/bin/bash
 # usage: tools/confirm_seed.sh <prop> <a|b> <pkgdir> <test-regex> [extra go test flags]
-# Confirms a seeded change delivered under /tmp/seed/<prop>/<x>/ in a scratch worktree:
+# Confirms a seeded change delivered under ${SEEDSRC:-/tmp/seed}/<prop>/<x>/ in a scratch worktree (stored as <prop>-${OUTX:-<x>}):
 #  - demo passes on the pinned commit, fails with the change
 #  - the change builds and the full existing suite passes with it
 # and records it under /verif/seeded/<prop>-<x>/ (patch.diff, demo, meta.json).
 set -u
 export GOFLAGS=-mod=mod GOPROXY=off GOSUMDB=off GOTOOLCHAIN=local; unset GOWORK
 prop=$1; x=$2; dir=$3; rx=$4; shift 4; extra="$*"
-src=/tmp/seed/$prop/$x
-out=/verif/seeded/$prop-$x
-wt=/tmp/confirm/$prop-$x
-log=/tmp/confirm/$prop-$x.log
+src=${SEEDSRC:-/tmp/seed}/$prop/$x
+ox=${OUTX:-$x}
+out=/verif/seeded/$prop-$ox
+wt=/tmp/confirm/$prop-$ox
+log=/tmp/confirm/$prop-$ox.log
 mkdir -p /tmp/confirm; rm -rf "$wt"; : > "$log"
 git -C /repo worktree add -q --detach "$wt" HEAD || exit 3
 demo=$(ls $src/demo_test.go 2>/dev/null || ls $src/*_test.go | head -1)
@@ -27,11 +28,11 @@ echo "### demo with change" >>"$log"; run_demo; with=$?
 git -C /repo worktree remove --force "$wt"
 ok=false
 if [ $base -eq 0 ] && [ $applied -eq 0 ] && [ $suite -eq 0 ] && [ $with -ne 0 ]; then ok=true; fi
-echo "$prop-$x: demo_on_pinned=$base apply=$applied suite_with_change=$suite demo_with_change=$with confirmed=$ok"
+echo "$prop-$ox: demo_on_pinned=$base apply=$applied suite_with_change=$suite demo_with_change=$with confirmed=$ok"
 if $ok; then
   mkdir -p "$out"
   cp "$src/patch.diff" "$out/patch.diff"; cp "$demo" "$out/demo_test.go"; [ -f "$src/README.md" ] && cp "$src/README.md" "$out/README.md"
-  python3 - "$prop" "$x" "$dir" "$rx" "$extra" "$out" <<'EOF'
+  python3 - "$prop" "$ox" "$dir" "$rx" "$extra" "$out" <<'EOF'
 import json,sys
 prop,x,d,rx,extra,out=sys.argv[1:7]
 meta={"property":prop,"variant":x,"demo_dir":d,"demo_cmd":"go test -vet=off -count=1 %s -run '%s' ./%s/ (demo_test.go copied into that directory)"%(extra,rx,d),
